@@ -3,22 +3,22 @@
 import json
 claimed = {
  "C01": ("exploration", "Seeded search over schedules, payload sizes, fragmentations and completion orders of the real client/server code under the simulator; oracle: every error-free completion carries F(own arguments) byte for byte (unique ids + payload digests), re-checked at end of run."),
- "C02": ("exploration", "Seeded search over interleavings of request write failure (EPIPE after a cut, closed codec), response arrival, peer FIN/RST at a byte offset, local Close and server kill, with the connection reader optionally starved; oracle: every private Done channel (capacity 4) received its call exactly once, Error unchanged between first signal and end of run, no blocking call left blocked. Second scenario (c02t): the same oracle over calls through the real pooling Transport and a real load-balancing Client on top of it while servers are killed and restarted."),
- "C03": ("fault_enumeration", "Cut points are enumerated (conversation x direction x FIN/RST x byte offset; Close/kill at every op index) and crossed with sampled schedules; oracle: nobody hangs, calls after a reported loss fail at once with ErrShutdown, responses whose complete frame precedes the cut still succeed (wire tap), successful calls carry the right reply. Not exhaustive: schedules are sampled."),
+ "C02": ("exploration", "Seeded search over interleavings of request write failure (EPIPE after a cut, closed codec), response arrival, peer FIN/RST at a byte offset, local Close and server kill, with the connection reader optionally starved; oracle: every private Done channel (capacity 4) received its call exactly once, Error unchanged between first signal and end of run, no blocking call left blocked; Go with a nil done channel included. Second scenario (c02t): the same oracle over calls through the real pooling Transport and a real load-balancing Client on top of it while servers are killed and restarted."),
+ "C03": ("fault_enumeration", "Cut points are enumerated (conversation x direction x FIN/RST x byte offset; Close/kill at every op index) and crossed with sampled schedules; oracle: nobody hangs (every outstanding call, stream open and stream close is released before the harness tears the world down), calls after a reported loss fail at once with ErrShutdown, responses whose complete frame precedes the cut still succeed (wire tap), successful calls carry the right reply. Not exhaustive: schedules are sampled."),
  "C04": ("exploration", "Handler execution log and independent wire-tap decoder against the set of calls the clients made: executions per id <= 1 (==1 for successful calls and in fault-free runs), argument digest equal, no phantom executions, <=1 request and response frame per (connection, seq)."),
- "C05": ("exploration", "Server pipelining in all accept modes x direct/batched I/O x client pipelining: handler intervals per connection are disjoint and in wire order, response frames in request order, arrivals on a shared Done channel in issue order (failures included)."),
+ "C05": ("exploration", "Server pipelining in all accept modes x direct/batched I/O x client pipelining: handler intervals per connection are disjoint and in wire order, response frames in request order, arrivals on a shared Done channel in issue order (failures included); in a fifth of the runs the client disconnects while requests are queued (execution order and overlap still judged)."),
  "C06": ("exploration", "Concurrent mixes of succeeding calls, handler errors (1 B..40 KB UTF-8), unknown methods, undecodable arguments, unencodable replies and unencodable requests; oracle: exactly the failing calls fail, text equals handler text and the text on the wire, text re-read at end of run (aliasing), reply object untouched, neighbours correct, no residue in NumCalls."),
- "C09": ("exploration", "1-3 streams per connection next to unary calls and pings, client-first / server-push-first / both; oracle: per stream and direction received id sequence == sent sequence (prefix after an injected cut), payload digests, no foreign stream ids."),
- "C10": ("exploration", "Stream close / FIN / RST / Conn.Close / server kill at a PRNG instant x accept mode (non-poll, poll fallback, poll epoll-model); oracle: blocked readers on both ends released with ErrStreamShutdown, handler goroutine returned by end of run, later Read/Write report ErrStreamShutdown, sibling streams and calls undisturbed."),
- "C11": ("exploration", "Handlers retain argument bytes, callers retain replies (incl. caller-supplied context buffers with a guard pattern) and stream messages, followed by >=4x further traffic in the same pool size classes with LIFO pool reuse; oracle: digests unchanged at end of run, nothing written beyond the reply length, buffer used iff large enough."),
+ "C09": ("exploration", "1-3 streams per connection next to unary calls and pings, client-first / server-push-first / both; oracle: per stream and direction received id sequence == sent sequence (prefix after an injected cut), payload digests, no foreign stream ids; zero-length messages and caller-supplied read buffers included."),
+ "C10": ("exploration", "Stream close / FIN / RST / Conn.Close / server kill at a PRNG instant x accept mode (non-poll, poll fallback, poll epoll-model); oracle: blocked readers on both ends released with ErrStreamShutdown, handler goroutine returned before the harness tears the world down (for a stream close: although the connection lives on), later Read/Write report ErrStreamShutdown, sibling streams and calls undisturbed; up to two readers per stream end, faults also timed to stream progress points."),
+ "C11": ("exploration", "Handlers retain argument bytes, callers retain replies (incl. caller-supplied context buffers with a guard pattern) and stream messages, followed by >=4x further traffic in the same pool size classes with LIFO pool reuse; oracle: digests unchanged at end of run and right at hand-over, nothing written beyond the reply length, buffer used iff large enough."),
  "C08": ("fault_enumeration", "Adversarial peers that speak the wire format: every truncation, every single-byte corruption (8 values quick / all 255 thorough) and every upgrade byte of every corpus frame kind under each header encoder against a real server (each followed by a well-formed probe on the same connection, next to a well-formed client on another), an adversarial server against a real client, and bursts of 1..64 requests followed at once by a disconnect under schedule search; oracle: no goroutine of the library panics (the simulator records panic value and stack), probes and sibling traffic are served, the run reaches quiescence. Not exhaustive: schedules are sampled and multi-byte corruptions are only sampled."),
- "C12": ("exploration", "Each run executes one generated workload twice inside the simulator: under a reference configuration and under a PRNG-chosen combination of header encoder x body codec x options-by-name/constructor x server poll(fallback|epoll-model)/pipelining/direct I/O/context buffer/NoCopy x client pipelining/direct I/O/NoCopy x buffer sizes {1,64,4K,64K,1M}; oracle: per-call outcome transcripts and executed-id multisets are equal to each other and to the plan's prediction. Real tcp/unix/http/ws/inproc sockets and TLS are outside the simulator and not covered."),
+ "C12": ("exploration", "Each run executes one generated workload twice inside the simulator: under a reference configuration and under a PRNG-chosen combination of header encoder x body codec x options-by-name/constructor x server poll(fallback|epoll-model)/pipelining/direct I/O/context buffer/NoCopy x client pipelining/direct I/O/NoCopy x buffer sizes {1,64,4K,64K,1M}; oracle: per-call outcome transcripts and executed-id multisets are equal to each other and to the plan's prediction, per-stream delivery included. Real tcp/unix/http/ws/inproc sockets and TLS are outside the simulator and not covered."),
  "C13": ("exploration", "Real Transport over simnet with limits from {<=0,1,2,3,8} x idle limits (some above the connection limit), 1-3 addresses, 1-6 concurrent callers of every call form, CloseIdleConnections, kill/restart, spacing relative to KeepAlive/IdleConnTimeout/tick; invariant checked at every dial, after every operation and by a 230 ms monitor: open connections per address <= effective MaxConnsPerHost, idle <= effective MaxIdleConnsPerHost, active+idle <= limit (read-only accessor added to the scratch copy), normalisation rule."),
  "C14": ("exploration", "Servers echo their identity and incarnation; kill/restart sequences per address with call spacings around KeepAlive/IdleConnTimeout/tick; oracle: reply identity == requested address, request frames only on connections dialed to that address (wire tap), calls during a whole down interval fail promptly with ErrDial/ErrShutdown, a sequential caller sees at most MaxConnsPerHost failures after the restart."),
  "C15": ("exploration", "A call lasting 3-43 simulated seconds and an open stream spanning many housekeeping ticks, next to short calls and CloseIdleConnections at PRNG instants, KeepAlive <,=,> IdleConnTimeout (also below the tick); safety: no call whose request was written and no open stream fails; liveness: all connections closed KeepAlive+IdleConnTimeout+3 ticks after the last traffic, and immediately after Transport.Close."),
  "C16": ("exploration", "Real Client over a scripted fake RoundTripper: concurrent callers of every call form x Update sequences (grow/shrink/replace/duplicates/empty strings) x health flaps x optional Director x all policies; the recorded history of Update and Route operations (event-sequence-stamped) is checked with porcupine against a current-target-set model."),
- "C17": ("exploration", "Real Client over a fake RoundTripper with scripted, time-varying per-target latency on the fake clock: RoundRobin windows of n consecutive calls hit n distinct targets; Random stays within the targets; LeastTime is compared call by call with a reference model of the documented EWMA (non-minimal picks only in probe slots >= Tick apart)."),
- "C18": ("exploration", "Scripted up/down histories: failover within a 1 s detection bound and reuse after recovery, waiters released when a target becomes live, exact DialTimeout expiry with ErrTimeout, Close releasing waiters with ErrShutdown and failing later calls at once, Fallback pauses; nobody waits longer than DialTimeout + bound."),
+ "C17": ("exploration", "Real Client over a fake RoundTripper with scripted, time-varying per-target latency on the fake clock: RoundRobin windows of n consecutive calls hit n distinct targets; Random stays within the targets; LeastTime is compared call by call with a reference model of the documented EWMA (non-minimal picks only in probe slots >= Tick apart, probes in rotation, a refused target reset to the maximum at once, waiting inside the Client not counted as call duration)."),
+ "C18": ("exploration", "Scripted up/down histories: failover within a 1 s detection bound and reuse after recovery, waiters released when a target becomes live, exact DialTimeout expiry with ErrTimeout, Close releasing waiters with ErrShutdown and failing later calls at once, Fallback pauses, all targets refusing then one returning, a timeout at the instant of a recovery followed by a second waiting episode, callers arriving at the instant of a release; nobody waits longer than DialTimeout + bound."),
  "C20": ("exploration", "Conn(s)/Transport/Client(real Transport) plus non-poll servers with calls in flight, blocked streams, never-answering handlers, dead peers and refused dials; every participant closed in PRNG order, some twice and overlapping; oracle (exact, from the simulator's goroutine registry and simnet's connection table): no library goroutine alive, every connection closed on both sides, Listen returned, repeated-Close results."),
  "C19": ("exploration", "CallWithContext with deadlines before / at / after the scripted handler latency, never-answering handlers, pre-cancelled contexts, context buffers around the reply size, next to sibling calls; exact fake-clock oracle: reply iff handler latency < deadline, context error exactly at the deadline otherwise, siblings (calls, pings, streams) unharmed. Second scenario (c19t): CallWithContext through the real Transport and a real Client while servers (possibly all) are away: return no later than the deadline."),
 }
